@@ -285,5 +285,5 @@ def conc(case):
 
 
 def run_case(case, tier):
-    ctx = explore.explore(make_harness(case, tier), max_paths=30000, time_budget_s=400, decide_timeout_ms=20000)
+    ctx = explore.explore(make_harness(case, tier), max_paths=(30000 if tier == 'quick' else 1200000), time_budget_s=(400 if tier == 'quick' else 3600), decide_timeout_ms=20000)
     return driver.result_from_ctx(ctx)
